@@ -227,4 +227,25 @@ theorem status_total (name : List Char) (clis : List Cli) :
 example : run [⟨"$ a\n", .exited 0 "A" "x"⟩, ⟨"$ b\n", .exited 3 "B" "y"⟩, ⟨"$ c\n", .exited 0 "C" "z"⟩]
     = .finished .failed { codes := [0, 3], out := "AB", err := "$ a\nx$ b\ny" } := by decide
 
+/-- **A build (configure, then build) is the two commands run in sequence**: same status, same return codes, same
+captured output as `run [configure, build]` — so everything proved about `run` (DONE iff every command exited with 0, the
+build step is not run after a failed configure step, output in order) holds for `BuildTask`. -/
+theorem build_eq_run (configure build : Cli) : buildSys configure build = run [configure, build] := by
+  cases hc : configure.res with
+  | spawnError => simp [buildSys, run, runLoop, hc]
+  | exited k o e =>
+    by_cases hk : k = 0
+    · subst hk
+      cases hb : build.res with
+      | spawnError => simp [buildSys, run, runLoop, hc, hb, String.append_assoc]
+      | exited k2 o2 e2 =>
+        by_cases hk2 : k2 = 0
+        · subst hk2; simp [buildSys, run, runLoop, hc, hb, String.append_assoc]
+        · simp [buildSys, run, runLoop, hc, hb, hk2, String.append_assoc]
+    · simp [buildSys, run, runLoop, hc, hk]
+
+theorem build_done_iff (configure build : Cli) :
+    (∃ acc, buildSys configure build = .finished .done acc) ↔ AllZero [configure, build] := by
+  rw [build_eq_run]; exact done_iff_all_zero _
+
 end RunCmd
